@@ -883,6 +883,31 @@ func (inst *Instance) shortMutexHeld() bool {
 	return false
 }
 
+// shortMutexAddrs returns the addresses of the instance's short-section
+// mutexes (for the watchdog's reading of goroutine stacks).
+//
+//go:norace
+func (inst *Instance) shortMutexAddrs() []uintptr {
+	if inst.WM == nil || inst.Dead {
+		return nil
+	}
+	var out []uintptr
+	wm := reflect.ValueOf(inst.WM).Elem()
+	for _, fm := range [][2]string{{"ntfnsHandler", "memMtx"}, {"utxoStore", "muUtxo"}} {
+		v := wm.FieldByName(fm[0])
+		if !v.IsValid() || (v.Kind() == reflect.Ptr && v.IsNil()) {
+			continue
+		}
+		if v.Kind() == reflect.Ptr {
+			v = v.Elem()
+		}
+		if f := v.FieldByName(fm[1]); f.IsValid() {
+			out = append(out, f.UnsafeAddr())
+		}
+	}
+	return out
+}
+
 //go:norace
 func (inst *Instance) walletMutexHeld() bool {
 	if inst.WM == nil {
